@@ -318,6 +318,10 @@ pub struct SimPair {
     /// blackout[link]: (until_us, kinds) - frames of the given kinds (bit 0 data, bit 1 ack,
     /// bit 2 sync) put on the link before `until_us` are dropped
     pub blackout: [(u64, u8); 2],
+    /// dup_acks[link]: (ordinal of the ack frame put on that link, extra delay in us): that ack
+    /// frame is delivered a second time, `delay` after the original
+    pub dup_acks: [Vec<(u32, u32)>; 2],
+    ack_count: [u32; 2],
 }
 
 impl SimPair {
@@ -345,6 +349,8 @@ impl SimPair {
             ev: 0,
             next_idx: [0, 0],
             blackout: [(0, 0), (0, 0)],
+            dup_acks: [Vec::new(), Vec::new()],
+            ack_count: [0, 0],
         }
     }
 
@@ -396,6 +402,20 @@ impl SimPair {
                 let seq = sim.seq;
                 sim.in_flight[to].push(InFlight { arrive_us, seq, wire_idx, bytes: data, corrupted });
             };
+            if kind_bit == 2 {
+                let n = self.ack_count[from];
+                self.ack_count[from] += 1;
+                if let Fate::Deliver(extra) = &fate {
+                    let dups: Vec<u32> = self.dup_acks[from].iter().filter(|d| d.0 == n).map(|d| d.1).collect();
+                    for d in dups {
+                        // the copy is queued after the original (same arrival time => handled right after it)
+                        let at = base + *extra as u64 + d as u64;
+                        self.seq += 1;
+                        let seq = self.seq + 1_000_000_000;
+                        self.in_flight[to].push(InFlight { arrive_us: at, seq, wire_idx, bytes: bytes.clone(), corrupted: false });
+                    }
+                }
+            }
             match &fate {
                 Fate::Deliver(extra) => push(self, base + *extra as u64, bytes.clone(), false),
                 Fate::Drop => self.trace.frames_dropped += 1,
